@@ -331,6 +331,25 @@ def h_shapes(rec):
             r = rt.rt_shapes_case("Concatenate", s0=s0, s1=tuple(s1), axis=ax)
         elif cls == "Vmap":
             r = rt.rt_shapes_case("Vmap", inner_shape=dims(m["inner_shape"])[:2], inner_cond_shape=dims(m["inner_cond_shape"], 3), in_axes_condition=int(m["in_axes_condition"]), axis_size=5)
+        elif cls == "Partial" and m.get("n") is not None and m.get("i") is not None:
+            import flowjax.bijections as B
+            import jax.numpy as jnp
+
+            n_, i_ = int(m["n"]), int(m["i"])
+            r = None
+            if 1 <= n_ <= 64 and abs(i_) <= 256:
+                fits = -n_ <= i_ < n_
+                try:
+                    pb = B.Partial(B.Exp(()), i_, (n_,))
+                    accepted = True
+                except Exception:  # noqa: BLE001
+                    accepted = False
+                if accepted and not fits:
+                    xx = jnp.arange(1.0, n_ + 1.0) / 10
+                    yy, ld = pb.transform_and_log_det(xx)
+                    r = f"Partial(Exp(()), idxs={i_}, shape=({n_},)) was accepted although the index is out of range; transform_and_log_det({xx.tolist()}) = ({yy.tolist()}, log-det {float(ld):.6g})"
+                elif fits and not accepted:
+                    r = f"Partial(Exp(()), idxs={i_}, shape=({n_},)) was rejected although the index is in range"
         else:
             r = None
         if r is not None:
